@@ -267,7 +267,7 @@ func runDriveText(args []string) int {
 		}
 		emit(map[string]interface{}{"ev": "lay", "l": layJSON(l), "s": chars(s), "p": pj})
 	}
-	for m := 1; m <= 6; m++ {
+	for m := 1; m <= 8; m++ { // every declared value (from the const block, not from the generated table)
 		s := wt.AggregationMethod(m).String()
 		p, err := wt.AggregationMethodString(s)
 		pv := int(p)
